@@ -18,3 +18,16 @@ package tunescape
 //@   ensures[no-escape-char-untouched] (forall i int :: 0 <= i && i < len(old(record.Fields[tf.keyLocator])) ==> old(record.Fields[tf.keyLocator])[i] != unescaper.escapeChar)
 //@        ==> record.Fields[tf.keyLocator] === old(record.Fields[tf.keyLocator])
 //@   ensures[never-longer] len(record.Fields[tf.keyLocator]) <= len(old(record.Fields[tf.keyLocator]))
+
+// ==== configuration: verify => construct (C16) ===================================================================================
+//@ pure func cfgok(c *Config, s base.LogSchema) bool := len(c.Key) > 0 && base.hasf(s, key(c.Key))
+//@ func (c *Config) VerifyConfig(schema base.LogSchema) error
+//@   property C16
+//@   requires c != nil
+//@   modifies nothing
+//@   ensures[accepted-config-is-constructible] result == nil ==> cfgok(c, schema)
+//@ func (c *Config) NewTransform(schema base.LogSchema, _ logger.Logger, _ base.LogCustomCounterRegistry) base.LogTransform
+//@   property C16
+//@   requires c != nil && cfgok(c, schema)
+//@   modifies nothing
+//@   ensures  result != nil
